@@ -690,3 +690,163 @@ func TestStandinStack(t *testing.T) {
 	})
 	x.finish(t)
 }
+
+// TestStandinClass (C16): the class parser (scanCharSet, shorthand escapes, negation, subtraction, the IgnoreCase
+// closure) is not under contract; the proofs of C16 start from the CharSet it builds. For every class expression of a
+// small grammar and every rune of a small universe, membership as the engine sees it (^[...]$ against the one-rune
+// text, which goes through the compiled program) must equal set algebra over the parts of the expression.
+type kitem struct {
+	text string
+	has  func(r rune, ecma bool) bool
+}
+
+func kword(r rune, ecma bool) bool {
+	if r < 128 {
+		return r == '_' || (r >= '0' && r <= '9') || (r >= 'a' && r <= 'z') || (r >= 'A' && r <= 'Z')
+	}
+	return !ecma && unicode.IsLetter(r)
+}
+func kdigit(r rune, ecma bool) bool { return r >= '0' && r <= '9' }
+func kspace(r rune, ecma bool) bool {
+	return r == ' ' || (r >= '\t' && r <= '\r')
+}
+
+func klit(c rune) kitem {
+	s := string(c)
+	if c == '-' || c == ']' || c == '^' || c == '\\' {
+		s = `\` + s
+	}
+	return kitem{s, func(r rune, _ bool) bool { return r == c }}
+}
+func krange(a, b rune) kitem {
+	return kitem{string(a) + "-" + string(b), func(r rune, _ bool) bool { return a <= r && r <= b }}
+}
+
+type kclass struct {
+	neg   bool
+	items []kitem
+	sub   *kclass
+}
+
+func (c *kclass) String() string {
+	s := "["
+	if c.neg {
+		s += "^"
+	}
+	for _, it := range c.items {
+		s += it.text
+	}
+	if c.sub != nil {
+		s += "-" + c.sub.String()
+	}
+	return s + "]"
+}
+
+// set algebra: the members named by the items (closed under simple case folding with IgnoreCase), complemented if
+// negated, minus the subtracted class
+func (c *kclass) has(r rune, ecma, ignoreCase bool) bool {
+	in := false
+	for _, it := range c.items {
+		if it.has(r, ecma) {
+			in = true
+		}
+		if ignoreCase {
+			for f := unicode.SimpleFold(r); f != r; f = unicode.SimpleFold(f) {
+				if it.has(f, ecma) {
+					in = true
+				}
+			}
+		}
+	}
+	if c.neg {
+		in = !in
+	}
+	return in && !(c.sub != nil && c.sub.has(r, ecma, ignoreCase))
+}
+
+func TestStandinClass(t *testing.T) {
+	level := factsEnvInt("STANDIN_EXEC_LEVEL", 1)
+	x := &xrun{show: factsEnvInt("STANDIN_FACTS_SHOW", 8)}
+	items := []kitem{klit('a'), klit('z'), klit('A'), klit('0'), klit('_'), klit('-'), klit('é'), klit('\u007f'), krange('a', 'c'), krange('A', 'C'), krange('x', 'z'), krange('0', '5'), krange(' ', '/'), krange('\u0000', 'a'),
+		{`\d`, kdigit}, {`\D`, func(r rune, e bool) bool { return !kdigit(r, e) }}, {`\w`, kword}, {`\W`, func(r rune, e bool) bool { return !kword(r, e) }},
+		{`\s`, kspace}, {`\S`, func(r rune, e bool) bool { return !kspace(r, e) }}}
+	subs := []*kclass{nil, {items: []kitem{klit('b')}}, {items: []kitem{klit('B')}}, {items: []kitem{krange('a', 'b')}}, {items: []kitem{{`\d`, kdigit}}}, {neg: true, items: []kitem{klit('a')}},
+		{items: []kitem{krange('a', 'z')}, sub: &kclass{items: []kitem{klit('c')}}}}
+	var classes []*kclass
+	for _, neg := range []bool{false, true} {
+		for _, sub := range subs {
+			for i, a := range items {
+				classes = append(classes, &kclass{neg: neg, items: []kitem{a}, sub: sub})
+				for j, b := range items {
+					if level < 2 && (i+j)%2 == 1 {
+						continue
+					}
+					classes = append(classes, &kclass{neg: neg, items: []kitem{a, b}, sub: sub})
+				}
+			}
+		}
+	}
+	var universe []rune
+	for r := rune(0); r < 128; r++ {
+		universe = append(universe, r)
+	}
+	universe = append(universe, 0x80, 0xC9, 0xE9, 0xD7, 0xFF, 0x100, 0x3B1, 0x391, 0x434, 0x414)
+	type kopt struct {
+		opt  RegexOptions
+		sub  bool // class subtraction is available
+		ecma bool
+	}
+	opts := []kopt{{None, true, false}, {IgnoreCase, true, false}, {ECMAScript, false, true}, {IgnoreCase | ECMAScript, false, true}, {RightToLeft, true, false}}
+	x.patterns = len(classes)
+	var nodes []xnode
+	for i := range classes {
+		nodes = append(nodes, xatom{s: fmt.Sprint(i)})
+	}
+	xparallel(nodes, func(nd xnode) {
+		var idx int
+		fmt.Sscan(nd.fwd(), &idx)
+		c := classes[idx]
+		lc, lf, ln, ls := 0, 0, 0, 0
+		for _, o := range opts {
+			if c.sub != nil && !o.sub {
+				continue
+			}
+			if o.opt&IgnoreCase != 0 && strings.ContainsAny(c.String(), "WDS") {
+				// the complement shorthands contain letters whose case mapping has no agreed meaning (U+0130, U+212A):
+				// outside the property's domain under IgnoreCase
+				continue
+			}
+			for _, shape := range []string{"^%s$", "^%s+$", "x?%s"} {
+				pat := fmt.Sprintf(shape, c.String())
+				re, err := Compile(pat, o.opt)
+				if err != nil {
+					ls++
+					continue
+				}
+				for _, r := range universe {
+					if r == 'x' || r == 'X' {
+						continue
+					}
+					want := c.has(r, o.ecma, o.opt&IgnoreCase != 0)
+					got, err := re.MatchRunes([]rune{r})
+					lc++
+					if want {
+						lf++
+					} else {
+						ln++
+					}
+					if err != nil || got != want {
+						x.report("K-member", fmt.Sprintf("pattern=%q options=%d rune=%q (U+%04X): the engine says %v (%v), set algebra says %v", pat, int(o.opt), string(r), r, got, err, want))
+					}
+				}
+			}
+		}
+		x.mu.Lock()
+		x.cases += lc
+		x.found += lf
+		x.failed += ln
+		x.skipped += ls
+		x.mu.Unlock()
+	})
+	x.finish(t)
+}
